@@ -6,6 +6,8 @@ import RbV.Lemmas.MyersBlock
 import RbV.Lemmas.MyersLongAll
 import RbV.Lemmas.MyersLongBand
 import RbV.Thm.GenSrcHamming
+import RbV.Thm.GenSrcUkkonen
+import RbV.Lemmas.HitsClamp
 /-!
 # C09 — approximate matchers and distance functions equal the edit-distance definition
 
@@ -289,5 +291,67 @@ theorem hamming_source_counts (a b : List Nat) (h64 : a.length < 2 ^ 64) (hl : a
 
 example : RbV.Gen.SrcHamming.hamming [1, 2, 3] [1, 0, 0] = RbV.Rs.Res.ok 2 := by decide
 example : RbV.Gen.SrcHamming.hamming [1, 2, 3] [1, 0] = RbV.Rs.Res.panic := by decide
+
+/-! ### Ukkonen's cut-off DP, translated from the source text (genukk)
+
+`RbV/Gen/SrcUkkonen.lean` = `Ukkonen::find_all_end` + `ukkonen::Matches::next` of `pattern_matching/ukkonen.rs`, regenerated
+on every `./check C09`.  The two DP columns `D: [Vec<usize>; 2]` are a list `D` of two lists, the cost closure is the
+abstract function `cost` (a `u32`: `cost a b < 2^32`).  `findAllSrc cost D p t k` = `find_all_end(p, t, k)` on a matcher
+object whose buffers currently hold `D`, then `next` until `None` (`Rs.drain`). -/
+
+/-- **one call of `ukkonen::Matches::next`, as written, equals the mirror model**: on every state the model can be in
+(`WF`: two columns of `m + 1` cells bounded by `B`, `B + 2^32 ≤ 2^64`; `Dof i s` = the two buffers with the current
+column chosen by the parity of the text position `i`) the call does not panic and does not run out of loop fuel; it
+returns `None` exactly when the text is exhausted and the model's `run` has no further pair, and otherwise `Some(v)` with
+`v` the model's next pair, in a state that again represents the model's state (`StepSpec`). -/
+theorem ukkonen_next_source_eq_model (cost : Nat → Nat → Nat) (hcost : ∀ a b, cost a b < 2 ^ 32) (p : List Nat)
+    (k B : Nat) (hB : B + 2 ^ 32 ≤ 2 ^ 64) (hmB : p.length ≤ B) (rest : List Nat) (i : Nat) (s : RbV.Model.Ukkonen.St)
+    (wf : RbV.Thm.GenSrcUkkonen.WF p.length B s) (h64 : i + rest.length < 2 ^ 64) :
+    ∃ r' tx' o, RbV.Thm.GenSrcUkkonen.nextR cost p k (RbV.Thm.GenSrcUkkonen.Dof i s, s.lastk) (rest, i) = RbV.Rs.Res.ok (r', tx', o) ∧
+      RbV.Thm.GenSrcScanD.StepSpec (RbV.Model.Ukkonen.step cost p k) (RbV.Thm.GenSrcUkkonen.WF p.length B)
+        (fun i s => (RbV.Thm.GenSrcUkkonen.Dof i s, s.lastk)) rest i s r' tx' (o.map some) :=
+  RbV.Thm.GenSrcUkkonen.next_eq_model cost hcost p k B hB hmB rest i s wf h64
+
+/-- **`find_all_end` resets the matcher**: whatever the two buffers of the `Ukkonen` object held (any two lists — e.g. the
+columns a previous search left behind), the translated `find_all_end` returns the buffers `[k'+1; m+1]`, `0..=m` and
+`lastk = min(k', m)`: the initial state of the mirror model for the threshold `k'` it stores (`k` itself for the pinned
+text; `min k m` is accepted too, see `ukkonen_source_exact`). -/
+theorem ukkonen_find_all_end_source_resets (D : List (List Nat)) (hD : D.length = 2) (p t : List Nat) (k : Nat)
+    (hk : k + 1 < 2 ^ 64) (hm : p.length + 1 < 2 ^ 64) :
+    ∃ k', (k' = k ∨ k' = min k p.length) ∧
+      RbV.Gen.SrcUkkonen.findAllEnd D p t k = RbV.Rs.Res.ok
+        (RbV.Thm.GenSrcUkkonen.Dof 0 (RbV.Model.Ukkonen.init p.length k'),
+          (p, (t, 0), (RbV.Model.Ukkonen.init p.length k').lastk, p.length, k')) :=
+  RbV.Thm.GenSrcUkkonen.findAllEnd_init D hD p t k hk hm
+
+/-- **Ukkonen, as written in the source, is exact — also on a reused matcher object**: for every `u32`-valued cost
+function, every previous content `D` of the two column buffers, every pattern, text and threshold (`k`, `|p|` below
+`2^64 − 2^32`, `|t| < 2^64`), `find_all_end(p, t, k)` followed by `next` until `None` never panics and yields exactly the
+pairs `(end, d)`, `d ≤ k`, of the Sellers column (`hits_spec`).  No mirror model is left between the text and the
+specification (`ukkonen_eq` is the proof device). -/
+theorem ukkonen_source_exact (cost : Nat → Nat → Nat) (hcost : ∀ a b, cost a b < 2 ^ 32) (D : List (List Nat))
+    (hD : D.length = 2) (p t : List Nat) (k : Nat) (hk : k + 2 ^ 32 < 2 ^ 64) (hm : p.length + 2 ^ 32 < 2 ^ 64)
+    (h64 : t.length < 2 ^ 64) :
+    RbV.Thm.GenSrcUkkonen.findAllSrc cost D p t k = RbV.Rs.Res.ok (hits cost p t k) := by
+  obtain ⟨k', hk', h⟩ := RbV.Thm.GenSrcUkkonen.findAllSrc_eq_model cost hcost D hD p t k hk hm h64
+  rw [h, ukkonen_eq]
+  rcases hk' with rfl | rfl
+  · rfl
+  · rw [hits_clamp]
+
+/-- the result does not depend on what an earlier search left in the matcher (history clause of the property) -/
+theorem ukkonen_source_history_independent (cost : Nat → Nat → Nat) (hcost : ∀ a b, cost a b < 2 ^ 32)
+    (D D' : List (List Nat)) (hD : D.length = 2) (hD' : D'.length = 2) (p t : List Nat) (k : Nat)
+    (hk : k + 2 ^ 32 < 2 ^ 64) (hm : p.length + 2 ^ 32 < 2 ^ 64) (h64 : t.length < 2 ^ 64) :
+    RbV.Thm.GenSrcUkkonen.findAllSrc cost D p t k = RbV.Thm.GenSrcUkkonen.findAllSrc cost D' p t k := by
+  rw [ukkonen_source_exact cost hcost D hD p t k hk hm h64, ukkonen_source_exact cost hcost D' hD' p t k hk hm h64]
+
+-- non-vacuity: the translated code, run on a fresh object and on one whose buffers hold small stale values (the state
+-- seeded defects C09-1 / C09-6 fail on: pattern AACCAAA, k = 1, after a search in CAACC the text CACAAAA has no hit)
+example : RbV.Thm.GenSrcUkkonen.findAllSrc (unitW eqSym) [[], []] [1, 2, 1] [1, 2, 1, 3, 1, 1] 1
+    = RbV.Rs.Res.ok [(1, 1), (2, 0), (3, 1), (4, 1), (5, 1)] := by decide
+example : RbV.Thm.GenSrcUkkonen.findAllSrc (unitW eqSym) [[0, 1, 1, 1, 2, 3, 4, 5], [0, 0, 1, 2, 1, 2, 3, 4]]
+    [1, 1, 2, 2, 1, 1, 1] [2, 1, 2, 1, 1, 1, 1] 1 = RbV.Rs.Res.ok [] := by decide
+example : hits (unitW eqSym) [1, 1, 2, 2, 1, 1, 1] [2, 1, 2, 1, 1, 1, 1] 1 = [] := by decide
 
 end RbV.Thm.C09
